@@ -54,6 +54,18 @@ def _task(contract_idx, prop, tier, repo, budget_scale, conn):
                            {'exception': pr.exc.cls.name, 'args': repr(pr.exc.attrs.get('args'))[:200]}, kind='noexc')
             except I.Undefined as u:
                 ctx.oblige('no-undefined-value', False, {'undefined': str(u)}, kind='noexc')
+            except (KeyError, IndexError, TypeError, AttributeError) as e:
+                # raised by the contract's own Python code: it indexed something it expected the code
+                # to have called or returned.  On the unchanged tree that is a bug of the contract (the
+                # run is then undecided, exit 2, and gets noticed); on a changed tree it says the code
+                # no longer has the shape the contract was written for - undecided, never a crash
+                import traceback as _tb
+                fr = _tb.extract_tb(e.__traceback__)
+                where = fr[-1].filename if fr else ''
+                if '/contracts/' in where:
+                    raise Unsupported("the contract's harness does not fit the code under test (%s: %s at %s:%d)" % (
+                        type(e).__name__, str(e)[:80], where.split('/')[-1], fr[-1].lineno))
+                raise
             finally:
                 info['inlined'] |= c.ip.inlined
                 info['summarised'] |= c.ip.summarised
@@ -440,6 +452,8 @@ def main(argv=None):
             for f in bounded['failures']:
                 if f['contract'] not in bo and f['contract'] not in undecided_contracts:
                     continue
+                if f['contract'] not in bo and '[raised in contract code' in (f.get('exception') or ''):
+                    continue        # the harness itself does not fit: no evidence either way
                 key = (f['contract'], f['clause'])
                 kf0 = _known_for(key, f)
                 skey = key + (('known', id(kf0)) if kf0 is not None else ('new',))
